@@ -23,9 +23,9 @@ def freshD (f : File) (s e : Int) (ops : List Op) (n : Nat) : Ans :=
     queries and derivations, every memoised value of every object (source, copies, slices, views of
     views) equals its recomputation from the current `start/stop` — and every live object is still
     untruncated, every closure chain consistent. -/
-theorem cache_inv (f : File) (s e : Int) (hU : Untruncated f s) (hS : SliceClosed f) (ops : List Op) :
+theorem cache_inv (f : File) (s e : Int) (hU : Untruncated f s) (ops : List Op) :
     CacheOK f (runL f [initObj s e] (label ops)).1 :=
-  (runL_good f hS (label ops) _ (Good_init f s e hU)).2.2
+  (runL_good f (sliceClosed f) (label ops) _ (Good_init f s e hU)).2.2
 
 /-- the invariant is not vacuous: after `pixel_time_seconds`, `get_image("red")` and a crop the tables hold
     entries, and the source's start is unchanged -/
@@ -40,11 +40,11 @@ example :
 /-- **purity_untruncated.**  If no photon timeline starts after the nominal start (and everything lies on
     one sampling grid), then for EVERY history of queries and derivations, on every object of the history,
     the `n`-th answer is the answer of the freshly constructed twin that is asked only that. -/
-theorem purity_untruncated (f : File) (s e : Int) (hU : Untruncated f s) (hS : SliceClosed f) (ops : List Op)
+theorem purity_untruncated (f : File) (s e : Int) (hU : Untruncated f s) (ops : List Op)
     (n : Nat) (hn : n < ops.length) :
     (run f s e ops)[n]? = some (freshD f s e ops n) := by
   unfold run freshD
-  exact run_twin f hS (label ops) _ _ n (R_refl (Good_init f s e hU))
+  exact run_twin f (sliceClosed f) (label ops) _ _ n (R_refl (Good_init f s e hU))
     (by unfold label; rw [label_length]; exact hn)
 
 /-- non-vacuity of the hypotheses: a file whose photon counts start two samples BEFORE the scan -/
@@ -55,16 +55,27 @@ example : Untruncated ⟨0, 10, [0, 1, 2, 1, 2, 0, 0, 1, 2, 1, 2, 0, 0], 2, fals
   subst hc
   exact ⟨by decide, ⟨2, by decide⟩⟩
 
-/-- **derive_preserves_source (history form).**  A derivation inserted anywhere into a history changes no
-    later answer of the source or of an earlier derivative: both histories answer what their twins answer, and
-    the twins differ only by a derivation that — on an untruncated object — alters no skeleton of an existing
-    object (`derive_sim`, `den_append`). Stated here for the state machine: after ANY derivation on a calm heap,
-    the heap is still calm and consistent (so every later answer is again the cache-free semantics), and the
-    objects that existed before keep their skeletons. -/
-theorem derive_preserves_source_partial (f : File) (hS : SliceClosed f) (h : Heap) (hG : Good f h) (i x : Nat)
-    (d : Derive) :
-    Good f (derive f h i x d).1 :=
-  (derive_sim f hS i x d h h (R_refl hG)).2.1
+/-- **derive_preserves_source.**  On a calm heap (any state reachable from an untruncated object), NO
+    derivation — copy, re-calibration, time slice, crop, down-sampling, flip, frame selection, failed or empty
+    derivation, addressed to any object — changes what any object that existed before answers to any later
+    query; and the heap stays calm and consistent, so the statement applies again to the next derivation. -/
+theorem derive_preserves_source (f : File) (h : Heap) (hG : Good f h) (i x : Nat) (d : Derive) (j : Nat) (q : Query)
+    (hj : ∃ o, h[j]? = some o) :
+    (query f (derive f h i x d).1 j q).2 = (query f h j q).2 ∧ Good f (derive f h i x d).1 :=
+  ⟨query_pre f j q h _ hG (derive_sim f (sliceClosed f) i x d h h (R_refl hG)).2.1 (derive_pre f h hG i x d) hj,
+    (derive_sim f (sliceClosed f) i x d h h (R_refl hG)).2.1⟩
+
+/-- the hypothesis is met by every state a history reaches from an untruncated object -/
+theorem reachable_good (f : File) (s e : Int) (hU : Untruncated f s) (ops : List Op) :
+    Good f (runL f [initObj s e] (label ops)).1 :=
+  runL_good f (sliceClosed f) (label ops) _ (Good_init f s e hU)
+
+/-- non-vacuity: slicing the source after the image was asked leaves the image answer alone (evaluated) -/
+example :
+    let f : File := ⟨0, 10, [0, 1, 2, 1, 2, 0, 0, 1, 2, 1, 2, 0, 0], 2, false, false, some ⟨-20, 40⟩, none, none⟩
+    let h := (runL f [initObj 0 130] (label [.q 0 (.prim (.image .red))])).1
+    (query f (derive f h 0 7 (.slice none none)).1 0 (.prim (.image .red))).2 = (query f h 0 (.prim (.image .red))).2
+      ∧ (derive f h 0 7 (.slice none none)).2 = .pair (.int 10) (.int 130) := by decide +kernel
 
 /-! ## `Scan.num_frames` -/
 
@@ -121,7 +132,7 @@ example :
     the second scan line one repair does not reach it and every further access moves `start` again; (ii) objects
     derived BEFORE the access keep the unrepaired start and stale memo entries.  Both are finding F5. -/
 theorem purity_after_repair_partial (f : File) (s e : Int) (c : Color) (o' : Obj) (w : Option (Int × Int))
-    (hp : photonAccess f (initObj s e) c = .ok (o', w)) (hU : Untruncated f o'.start) (hS : SliceClosed f)
+    (hp : photonAccess f (initObj s e) c = .ok (o', w)) (hU : Untruncated f o'.start)
     (ops : List Op) (n : Nat) (hn : n < ops.length) :
     (runL f [o'] (label ops)).2[n]? = some (freshD f o'.start e ops n) := by
   obtain ⟨hs, hc⟩ := photonAccess_init f s e c hp
@@ -129,7 +140,7 @@ theorem purity_after_repair_partial (f : File) (s e : Int) (c : Color) (o' : Obj
   have hr : R f [o'] [initObj o'.start e] :=
     ⟨Good_single f o' hc hch hU, Good_init f o'.start e hU, by simp [skelH, hs]⟩
   unfold freshD
-  exact run_twin f hS (label ops) _ _ n hr (by unfold label; rw [label_length]; exact hn)
+  exact run_twin f (sliceClosed f) (label ops) _ _ n hr (by unfold label; rw [label_length]; exact hn)
 
 /-- non-vacuity: on the F5 witness the access `get_image("red")` repairs the start to 50, which is untruncated -/
 example : (match photonAccess f5 (initObj 0 240) .red with
